@@ -16,7 +16,7 @@ import tornado.iostream, tornado.ioloop, tornado.platform.asyncio  # noqa: F401,
 from core import vloop as _vloop, faketransport as _faketransport  # noqa: F401
 
 ID = "C11"
-LEAN_TARGETS = ["TornadoModel.C11.Props"]
+LEAN_TARGETS = ["TornadoModel.C11.Props", "TornadoModel.C11.PropsClose"]
 _P = "TornadoModel.C11."
 THEOREMS = [_P + n for n in [
     "read_conservation", "read_conservation_run", "read_conservation_init", "results_prefix_of_stream",
@@ -29,7 +29,9 @@ THEOREMS = [_P + n for n in [
     "arrival_batch", "arrival_independent_partial", "arrival_independent_refuted", "arrival_schedule",
     # no stalled read: a read left pending by the event handler / the read call is not satisfiable from the WHOLE buffer
     "no_stall_on_event", "no_stall_on_call", "pending_until_not_ready",
-]]
+    # read_until_close: data only in a step that closes the stream, and that step empties the read buffer (all runs)
+    "read_until_close_contract",
+]] + ["TornadoModel.C13.until_close_step", "TornadoModel.C13.until_close_issue"]
 TRUSTED = [
     "core/faketransport.FakeStream + core/vloop (scripted transport, virtual loop): the model's transport part mirrors them",
     "CPython `re` on the two fixed patterns rb'\\r?\\n\\r?\\n' and rb'[0-9]+x' (hand-written matchers `stdR`, compared on every buffer the tie sees and in a dedicated regex stream)",
@@ -42,6 +44,8 @@ ASSUMPTIONS = [
     "(match end inside the buffer, match determined by the bytes up to its end), arrival independence additionally RStable "
     "(first match prefix-stable); both proved for the two fixed patterns (stdR_local, stdR_stable)",
     "IOLoop ERROR events are never delivered by the fake transport (close causes are EOF, read/write errors, local close)",
+    "connect(): IOStream.connect / IOStream._handle_connect run (unbound) on the fake stream over a fake socket whose "
+    "connect() is always 'in progress' and whose SO_ERROR is scripted; at most one connect() per stream, at any position",
 ]
 RULE = ("op sequences (<= ~24 ops, <= 12 reads) over a byte stream (<= 4 KiB, alphabet rich in delimiters) delivered in "
         "exact segmentations incl. 1-byte and read_chunk_size +-1 boundaries, small max_buffer_size, with a close cause at a "
@@ -52,13 +56,21 @@ EXHAUSTIVE = {"quick": False, "thorough": False}
 CLAUSES = {
     "each read returns data matching its contract":
         "read_contracts (length), read_contracts_delim (first occurrence, <= max), read_contracts_regex (engine's first match, <= max) "
-        "on the position taken from the buffer; read_contracts_until (the former read_contracts_goal) + read_contracts_result "
-        "(Spec.contractOk on the outcome _finish_read builds, every request kind) + read_contracts_step + read_contracts_run "
-        "(every result of every run belongs to the request registered under its future id and meets Spec.contractOk; "
-        "ids unique) + issued_of_ret (the id is the future the call returned); hypothesis on the regex engine: RLocal "
-        "(stdR_local); a read is handed over as soon as the buffered bytes satisfy it (oracle clause `stalled`, Spec.ready): "
-        "no_stall_on_event + no_stall_on_call (a read left pending has _find_read_pos = not-found on the whole buffer) + "
-        "pending_until_not_ready (pending read_until => delimiter nowhere in the buffer)",
+        "on the position taken from the buffer (these three unfold _find_read_pos; the content is in the next ones); "
+        "read_contracts_until + read_contracts_result (Spec.contractOk on the outcome _finish_read builds, every request kind) "
+        "+ read_contracts_step + read_contracts_run (every result of every run belongs to the request registered under its "
+        "future id and meets Spec.contractOk; ids unique) + issued_of_ret (the id is the future the call returned); hypothesis "
+        "on the regex engine: RLocal (stdR_local).  "
+        "read_until_close (Spec.contractOk is vacuous for it; its contract is Spec.untilCloseOk: completes only once the stream "
+        "has closed, with everything buffered): read_until_close_contract (every run: a step that hands data to a "
+        "read_until_close future leaves the stream closed and the read buffer empty) from until_close_step / until_close_issue "
+        "(no data at all in a step that leaves the stream open); which bytes those are follows from conservation; that it is "
+        "settled in the closing step: C13 settled_exactly_once_at_any_close.  "
+        "'handed over as soon as the buffered bytes satisfy it' (oracle clause `stalled`, Spec.ready): no_stall_on_event + "
+        "no_stall_on_call + pending_until_not_ready are statements about ONE pass of _handle_read / _try_inline_read from ANY "
+        "state (a read they leave pending has _find_read_pos = not-found on the whole buffer); that every reachable state with "
+        "a pending read on an open stream is such a state (the buffer only changes inside those two) is NOT proved as a "
+        "run-level invariant: tie only — the oracle checks Spec.ready on every view of every case",
     "concatenation of all results is a prefix of the stream, nothing lost/duplicated/reordered":
         "read_conservation (step), read_conservation_run / read_conservation_init (all op sequences), results_prefix_of_stream",
     "any pattern of short reads": "the conservation and contract theorems quantify over every arrival pattern (feeds are ops); "
@@ -73,7 +85,12 @@ CLAUSES = {
                                   "(results so far = prefix of the batch results); tie only: schedules containing EOF / errors / "
                                   "close / read_into / read_until_close",
     "delimiter not found within max_bytes closes the stream instead of returning more":
-        "no_result_over_max + unsat_closes + unsat_closes_on_event + unsat_only_with_max + close_closed",
+        "'never returns more than max_bytes': no_result_over_max + read_contracts_run (Spec.contractOk includes <= max_bytes; all "
+        "runs).  'closes the stream': unsat_closes (the read call: _try_inline_read raising Unsatisfiable => closed, future "
+        "returned) + unsat_closes_on_event (the event handler: _handle_read raising Unsatisfiable => closed) + close_closed + "
+        "unsat_only_with_max — function level, hypotheses on the output of _try_inline_read / _handle_read; the run-level "
+        "invariant 'open and read_until(max_bytes=m) pending => at most m bytes buffered, delimiter absent' is NOT proved: tie "
+        "only — oracle clause `max_bytes/not-closed` on every view of every case (+ the decide examples in Props.lean)",
 }
 PARALLEL = False    # 1 ms per case in-process; forking a pool costs more than it saves (measured: 34 s vs 4 s)
 CASE_TIMEOUT = 120
@@ -89,9 +106,33 @@ class CustomError(Exception):
     pass
 
 
+class _Sock:
+    """what IOStream.connect / IOStream._handle_connect / the connect-error log line see of a socket"""
+
+    def __init__(self, stream):
+        import socket
+        self.stream = stream
+        self.family = socket.AF_INET
+
+    def connect(self, address):
+        raise BlockingIOError(errno.EINPROGRESS, "in progress")
+
+    def getsockopt(self, level, opt):
+        return errno.ECONNREFUSED if self.stream.cerr is not None else 0
+
+    def setsockopt(self, *a):
+        pass
+
+    def fileno(self):
+        return self.stream._fd.fileno()
+
+    def close(self):
+        pass
+
+
 def _mk_stream_class():
     from core.faketransport import FakeStream
-    from tornado.concurrent import Future, future_set_result_unless_cancelled
+    from tornado.iostream import IOStream
 
     class Stream(FakeStream):
         """FakeStream + persistent write modes, a connect() mirroring IOStream.connect/_handle_connect, and
@@ -101,6 +142,7 @@ def _mk_stream_class():
             super().__init__(*a, **kw)
             self.wmode = "accept"
             self.cerr = None
+            self.socket = _Sock(self)   # FakeStream.close_fd sets it to None, as IOStream.close_fd does
             self.created = []        # read futures created by _start_read (also when the call then raises)
             self.snap = None         # (buffer bytes, had pending read future) at entry of the first close()
             self.raised = None       # last exception raised by the transport
@@ -133,25 +175,15 @@ def _mk_stream_class():
                              self._read_future is not None)
             return super().close(exc_info)
 
-        # mirror of IOStream.connect / IOStream._handle_connect without a socket
+        # connect: the REAL `IOStream.connect` / `IOStream._handle_connect` (unbound, applied to this stream) over a fake
+        # socket whose connect() is "in progress" and whose SO_ERROR is what the op `cerr` scripted
         def connect(self):
-            self._connecting = True
-            future = Future()
-            self._connect_future = future
-            self._add_io_state(self.io_loop.WRITE)
-            return future
+            return IOStream.connect(self, ("peer.invalid", 1))
 
         def _handle_connect(self):
-            if self.cerr is not None:
-                self.error = self.cerr
-                self.raised = self.cerr
-                self.close()
-                return
-            if self._connect_future is not None:
-                future = self._connect_future
-                self._connect_future = None
-                future_set_result_unless_cancelled(future, self)
-            self._connecting = False
+            IOStream._handle_connect(self)
+            if self.cerr is not None and self.closed():
+                self.raised = self.error
 
     return Stream
 
@@ -494,7 +526,24 @@ def spec_requests(case, impl):
     if any(_result_bytes(oc) is None for _, _, _, oc in comp):
         return lines
     pairs = [[wire_op(q), _wire_outcome(oc)] for _, _, q, oc in comp]
-    return lines + [line("C11", "spec", pairs, fed_stream(case), [_result_bytes(oc) for _, _, _, oc in comp])]
+    comps, pends = ruc_observations(case, impl)
+    return lines + [line("C11", "spec", pairs, fed_stream(case), [_result_bytes(oc) for _, _, _, oc in comp]),
+                    line("C11", "ruc", [[atom(c), n] for _, c, n in comps], [atom(c) for _, c in pends])]
+
+
+def ruc_observations(case, impl):
+    """what Spec.untilCloseOk / Spec.untilCloseStalled judge: ([(op index, closed after, bytes left behind)] for every
+    read_until_close future completed with data, [(op index, closed)] for every view in which one is still pending)"""
+    req = read_requests(case, impl)
+    comps = [(i, bool(impl["outs"][i]["view"][0]), buflen(impl["outs"][i]["view"][2]))
+             for i, fid, q, oc in completed_reads(case, impl) if q[0] == "ruc"]
+    pends = []
+    for i, o in enumerate(impl["outs"]):
+        for fid in o["view"][5]:
+            q = req.get(fid)
+            if q and q[0] == "ruc":
+                pends.append((i, bool(o["view"][0])))
+    return comps, pends
 
 
 def spec_violation(case, impl, replies):
@@ -541,6 +590,18 @@ def spec_violation(case, impl, replies):
         i, q, b = stall_candidates(case, impl)[v[1]]
         return "op %d: %s %r stalled: still pending on the open stream although the buffered bytes %s satisfy it" % (
             i, q[0], q[1:], b.hex())
+    # read_until_close: completes only once the stream has closed, with everything buffered (Spec.untilCloseOk), and
+    # does not stay pending on a closed stream (Spec.untilCloseStalled)
+    st, vals = parse_reply(replies[2])
+    assert st == "ok", replies[2]
+    v = norm(vals[0])
+    comps, pends = ruc_observations(case, impl)
+    if isinstance(v, list) and v[0] == "early-or-partial":
+        i, c, n = comps[v[1]]
+        return "op %d: result of ruc breaks its contract: completed %s, %d bytes left behind in the read buffer" % (
+            i, "after the close" if c else "on the OPEN stream", n)
+    if isinstance(v, list) and v[0] == "stalled":
+        return "op %d: ruc stalled: still pending although the stream has closed" % pends[v[1]][0]
     return None
 
 
@@ -605,6 +666,18 @@ def _cause(rng):
     return [["rerr", "oserr"]]
 
 
+def add_connect(rng, ops, refused=0.3):
+    """one connect() per stream: first (the usual place), or anywhere — in particular after the close cause, where it
+    must raise StreamClosedError like write() —, a scripted SO_ERROR before or after it, and a WRITE event later"""
+    at = 0 if rng.random() < 0.55 else rng.randrange(len(ops) + 1)
+    ops = ops[:at] + [["connect"]] + ops[at:]
+    if rng.random() < refused:
+        ops.insert(rng.randrange(max(0, at - 1), min(len(ops), at + 3) + 1), ["cerr", "refused"])
+        at = ops.index(["connect"])
+    ops.insert(rng.randrange(at + 1, len(ops) + 1), ["writable"])
+    return ops
+
+
 def gen_ops(rng, size="small", writes=0.0, closes=1.0):
     chunk = rng.choice([1, 2, 3, 4, 5, 7, 8, 16, 64, None, None])
     maxbuf = rng.choice([None, None, None, None, 1, 2, 4, 6, 9, 16, 33])
@@ -644,8 +717,7 @@ def gen_ops(rng, size="small", writes=0.0, closes=1.0):
             tail.append(["setcb"])
         ops = ops[:at] + _cause(rng) + ops[at:] + tail
     if rng.random() < 0.08 * (1 + 4 * writes):
-        ops = [["connect"]] + ([["cerr", "refused"]] if rng.random() < 0.3 else []) + ops
-        ops.insert(rng.randrange(1, len(ops) + 1), ["writable"])
+        ops = add_connect(rng, ops)
     return {"cfg": [chunk, maxbuf], "ops": ops[:60] if size == "small" else ops}
 
 
